@@ -85,6 +85,13 @@ func (c *chunked) Read(p []byte) (int, error) {
 	return n, nil
 }
 
+func otherFormat(f string) string {
+	if f == lib.MediaJWS {
+		return lib.MediaCOSE
+	}
+	return lib.MediaJWS
+}
+
 func readerOf(k int, content []byte) io.Reader {
 	switch k % 5 {
 	case 4:
@@ -114,7 +121,7 @@ func readerOf(k int, content []byte) io.Reader {
 }
 
 func main() {
-	time.Local = time.FixedZone("UTC-5:30", -(5*3600+1800)) // the process does not live in UTC
+	time.Local = time.FixedZone("UTC-5:30", -(5*3600 + 1800)) // the process does not live in UTC
 	r := lib.Start("C07", "exploration")
 	r.Rule = "round trips: 6 key specs x {JWS, COSE} x {local signer, plugin-backed raw, plugin-backed envelope} x {OCI artifact through an on-disk layout, blob} x content sizes {0,1,63,64,65,4 KiB,1 MiB,(8 MiB thorough)} x media types (with parameters) x metadata maps (empty, 1-5 pairs, unicode, JSON-special characters) x expiry {0, 1 h, 24 h, 10 y} x signing agent; quick: every (key spec, format, signer kind, blob/OCI) at least once plus a PRNG sample; distinct by the full tuple; all non-trivial"
 	r.Assumptions = []string{"sizes < 2^53; metadata is valid UTF-8", "the verifying policy trusts the signer's root with the wildcard identity; revocation validators are scripted OK"}
@@ -225,7 +232,16 @@ func main() {
 			ts.Put("tsa:t", tsaRoot.Cert)
 			r.Event("countersigned-at-signing-time")
 		}
-		v, err := verifier.NewVerifierWithOptions(ts, verifier.VerifierOptions{OCITrustPolicy: lib.OCIPolicy(sv, stores, []string{"*"}), BlobTrustPolicy: lib.BlobPolicy(sv, stores, []string{"*"}),
+		ids := []string{"*"}
+		switch (ci / 2) % 4 { // the policy "trusts the signer" by wildcard or by pinning its subject - alone, or next to identities of another kind
+		case 1:
+			ids = []string{"x509.subject:" + lib.DNOf(ent.Cert)}
+		case 2:
+			ids = []string{"did:example:some-other-kind-of-identity", "x509.subject:" + lib.DNOf(ent.Cert)}
+		case 3:
+			ids = []string{"x509.subject:C=ZZ,ST=ZZ,O=Nobody", "acme.signer.id:42", "x509.subject:" + lib.DNOf(ent.Cert)}
+		}
+		v, err := verifier.NewVerifierWithOptions(ts, verifier.VerifierOptions{OCITrustPolicy: lib.OCIPolicy(sv, stores, ids), BlobTrustPolicy: lib.BlobPolicy(sv, stores, ids),
 			RevocationCodeSigningValidator: lib.OKRev{}, RevocationTimestampingValidator: lib.OKRev{}})
 		if err != nil {
 			panic(err)
@@ -342,7 +358,7 @@ func main() {
 			if err != nil {
 				panic(err)
 			}
-			if _, _, err := notation.SignOCI(ctx, sg, repo, notation.SignOptions{SignerSignOptions: notation.SignerSignOptions{SignatureMediaType: c.Format}, ArtifactReference: "registry.example/repo@" + artifact.Digest.String(), UserMetadata: map[string]string{"signed-by": "stranger"}}); err != nil {
+			if _, _, err := notation.SignOCI(ctx, sg, repo, notation.SignOptions{SignerSignOptions: notation.SignerSignOptions{SignatureMediaType: []string{c.Format, otherFormat(c.Format)}[(ci/3)%2]}, ArtifactReference: "registry.example/repo@" + artifact.Digest.String(), UserMetadata: map[string]string{"signed-by": "stranger"}}); err != nil { // (same or the OTHER envelope format)
 				panic(err)
 			}
 			r.Event("artifacts-with-a-foreign-signature")
